@@ -29,6 +29,7 @@ func (fc *FnCtx) callWith(instr ssa.Instruction, c *ssa.CallCommon, args []Val, 
 		fc.escapedRoots = nil
 	}()
 	fc.callGuards(c, args, st)
+	fc.noteCalled(c, st)
 	if c.IsInvoke() {
 		recv := fc.term(fc.val(c.Value, st))
 		key := "(" + typeName(c.Value.Type()) + ")." + c.Method.Name()
@@ -174,7 +175,7 @@ func (fc *FnCtx) havocAllExcept(st *State, except map[string]bool) {
 		fc.unsup("havoc in pure function")
 	}
 	for _, k := range fc.keys {
-		if strings.HasPrefix(k, "ghost:") || strings.HasPrefix(k, "iter:") || k == "alloc" || fc.eng.constGlobalKey(k) || except[k] {
+		if strings.HasPrefix(k, "ghost:") || strings.HasPrefix(k, "iter:") || strings.HasPrefix(k, "called:") || k == "alloc" || fc.eng.constGlobalKey(k) || except[k] {
 			continue
 		}
 		st.heap[k] = fc.tb.Fresh("hv!"+k, fc.keySort[k])
